@@ -26,6 +26,13 @@ DEC = {'$': 2, 'EUR': 2, 'AAA': 0}
 ACCTS = ['Assets:Bank', 'Assets:Bank:Sub', 'Assets:Cash', 'Expenses:Food', 'Liabilities:Card']
 
 
+# automated transactions: what the rule adds to a transaction reaches the accounts with it; later assertions count it
+AUTO_SRC, AUTO_BUDGET, AUTO_POOL = 'Expenses:Auto', 'Budget:Expenses:Auto', 'Budget:Pool'
+AUTO_TEXT = '= /^Expenses:Auto$/\n    [Budget:$account]    -1\n    [Budget:Pool]    1\n\n'
+AUTO_SX = ['auto', ['rule', AUTO_SRC.encode(), ['line', b'Budget:', True, 'B', -1, 1], ['line', AUTO_POOL.encode(), False, 'B', 1, 1]]]
+AUTO = ['']          # the rule text in front of the first file when the journal has one
+
+
 class WPost(X.Post):
     def __init__(self, acct, kind='R', amt=None, cost=None, lot=None, assigned=None):
         super().__init__(acct, kind, amt, cost, lot)
@@ -59,10 +66,18 @@ class Running:
         return tot
 
 
-def gen_history(rng):
-    """-> (xacts, expected) where expected[i] = 'ok' | 'assert' and per posting assigned values"""
+def gen_history(rng, auto=False):
+    """-> (xacts, expected) where expected[i] = 'ok' | 'assert' and per posting assigned values
+    auto: the journal starts with the rule AUTO_TEXT; postings to AUTO_SRC make it add a pair of [balanced virtual]
+    postings, and the assertions and assignments are (also) made on the two accounts those reach"""
     syms = rng.sample(list(DEC), rng.choice([1, 2, 3]))
     accts = rng.sample(ACCTS, rng.randrange(1, 5)) + ['Equity:Open']
+    if auto:
+        accts = rng.sample(ACCTS, rng.randrange(0, 3)) + [AUTO_BUDGET, AUTO_POOL][:rng.choice([1, 2, 2])] + ['Equity:Open']
+    # the first `warm` transactions leave the two accounts to the rule alone: what they hold when the first written
+    # `= AMOUNT` is judged on them was put there by generated postings only
+    warm = rng.randrange(1, 4) if auto else 0
+    plain = [a for a in accts[:-1] if a not in (AUTO_BUDGET, AUTO_POOL)] or ['Assets:Cash']
     run = Running()
     xs, exp = [], []
     teach = X.Xact([WPost('Teach:A%d' % i, 'R', X.Amt(F(1), DEC[s], s)) for i, s in enumerate(DEC)] + [WPost('Teach:Eq')], date='2019/01/01')
@@ -75,7 +90,9 @@ def gen_history(rng):
         verdict = 'ok'
         assigned = {}
         for j in range(rng.randrange(1, 4)):
-            acct = rng.choice(accts[:-1])
+            acct = rng.choice(plain if k < warm else accts[:-1])
+            if auto and k == warm and j == 0:
+                acct = rng.choice([a for a in accts[:-1] if a in (AUTO_BUDGET, AUTO_POOL)])
             kr = rng.random()
             kind = 'V' if kr < 0.17 else 'B' if kr < 0.27 else 'R'      # (virtual), [balanced virtual], real
             sym = rng.choice(syms)
@@ -114,19 +131,29 @@ def gen_history(rng):
             posts.append(p)
             if verdict == 'assert':
                 break
+        if auto and verdict == 'ok' and (k < warm or rng.random() < 0.45):
+            a = amt(rng, rng.choice(syms))
+            pos = rng.randrange(0, len(posts) + 1)
+            posts.insert(pos, WPost(AUTO_SRC, 'R', a))
+            assigned = {(k if k < pos else k + 1): v for k, v in assigned.items()}
+            extra.append((AUTO_SRC, False, a.sym, a.value, True))
         # balance the postings that must balance (real and [balanced virtual]) with an elided posting: mostly a real Equity
         # posting, sometimes a [balanced virtual] one on one of the accounts under test - what it receives (one generated
         # posting per commodity) then counts as virtual for every later assertion
         ekind, eacct = 'R', 'Equity:Open'
         if any(q.kind != 'V' for q in posts):
             if rng.random() < 0.25:
-                ekind, eacct = 'B', rng.choice(accts[:-1])
+                ekind, eacct = 'B', rng.choice(plain if k < warm else accts[:-1])
             posts.append(WPost(eacct, ekind, None))
         x = X.Xact(posts, date='2020/%02d/%02d' % (rng.randrange(1, 13), rng.randrange(1, 29)))
         xs.append(x)
         exp.append(dict(kind=verdict, assigned=assigned))
         if verdict == 'ok':
             run.hist.extend(extra)
+            for q in posts:
+                if q.acct == AUTO_SRC and q.amt is not None:
+                    run.hist.append((AUTO_BUDGET, True, q.amt.sym, -q.amt.value, True))
+                    run.hist.append((AUTO_POOL, True, q.amt.sym, q.amt.value, True))
             # what the elided posting receives: minus the must-balance postings, per commodity
             tot = {}
             for (a, v, s, q, mb) in extra:
@@ -140,12 +167,12 @@ def gen_history(rng):
 
 def declarations():
     """every account and commodity the generator uses, declared: under --strict / --pedantic nothing is unknown"""
-    accts = ACCTS + ['Equity:Open', 'Teach:Eq'] + ['Teach:A%d' % i for i in range(len(DEC))]
+    accts = ACCTS + [AUTO_SRC, AUTO_BUDGET, AUTO_POOL, 'Budget:$account', 'Equity:Open', 'Teach:Eq'] + ['Teach:A%d' % i for i in range(len(DEC))]
     return ''.join('account %s\n' % a for a in accts) + ''.join('commodity %s\n' % c for c in DEC) + '\n'
 
 
-def journal_sx(jid, xs, permissive):
-    return lib.sx(['journal', jid, ['permissive', permissive]] + [x.sx() for x in xs])
+def journal_sx(jid, xs, permissive, auto=False):
+    return lib.sx(['journal', jid, ['permissive', permissive]] + ([AUTO_SX] if auto else []) + [x.sx() for x in xs])
 
 
 def clean(xs, rejected):
@@ -157,7 +184,7 @@ def write_layout(ctx, name, xs, cut, skip=()):
     treats an include as the concatenation (C08), with the same options in force inside it (--permissive included)
     -> (main path, {file base name: text})"""
     def body(lo, hi):
-        return ('' if lo else PRELUDE[0]) + '\n'.join(x.text(i) for i, x in enumerate(xs) if lo <= i < hi and i not in skip)
+        return ('' if lo else PRELUDE[0] + AUTO[0]) + '\n'.join(x.text(i) for i, x in enumerate(xs) if lo <= i < hi and i not in skip)
     main = ctx.path(name)
     if cut is None:
         texts = {name: body(0, len(xs))}
@@ -199,19 +226,23 @@ def run(ctx, n_override=None):
     X.ERR_CLASSES[:] = ERRS
     lines, jobs = [], []
     for j in range(n):
-        xs, exp = gen_history(rng)
+        auto = j % 4 == 3
+        xs, exp = gen_history(rng, auto)
         permissive = rng.random() < 0.25
         cut = None
         if rng.random() < 0.35 and len(xs) > 2:
             a = rng.randrange(1, len(xs))
             cut = (a, rng.randrange(a + 1, len(xs) + 1)) if rng.random() < 0.7 else ('two', a)
             permissive = rng.random() < 0.45
-        jobs.append((j, xs, exp, permissive, cut))
-        lines.append(journal_sx('j%d' % j, xs, permissive))
+        jobs.append((j, xs, exp, permissive, cut, auto))
+        lines.append(journal_sx('j%d' % j, xs, permissive, auto))
     model = X.model_lines_to_map(lib.run_model('C09', lines))
-    for j, xs, exp, permissive, cut in jobs:
+    for j, xs, exp, permissive, cut, auto in jobs:
         jid = 'j%d' % j
-        text = X.render_journal(xs)
+        AUTO[0] = AUTO_TEXT if auto else ''
+        text = AUTO[0] + X.render_journal(xs)
+        if auto:
+            res.count('automated-rule')
         extra = ['--permissive'] if permissive else []
         # the checking options together: --permissive wins over --strict and --pedantic wherever it stands; alone, --strict
         # and --pedantic leave assertions as they are (every name is declared, so they have nothing else to say)
